@@ -47,6 +47,8 @@ class ListV(V):
         self.kind = kind
 
     def key(self):
+        if self.kind == "set":       # sets are equal (and hash alike) whatever order their members were added in
+            return (self.kind,) + tuple(sorted((i.key() for i in self.items), key=repr))
         return (self.kind,) + tuple(i.key() for i in self.items)
 
     def __repr__(self):
